@@ -46,6 +46,7 @@ GRAMMARS = {
     "cut": "start = a | b ;\na = 'x' ~ 'y' ;\nb = 'x' 'z' ;\n",
     "two": "start = second $ ;\nfirst = /\\d+/ ;\nsecond = /[a-z]+/ ;\n",
     "bad": "start = undefined_rule $ ;\n",                                # compile error
+    "bad2": "start = first second third $ ;\n",                             # compile error that names several things
     "typed_d": "start = word $ ;\nword::Num = /[a-z]+/ ;\n",
     # rule names that differ only in leading / trailing underscores (a lookup that tries several spellings of a name)
     "us": "start = 'x' $ ;\n_start_ = 'y' $ ;\n_start = 'z' $ ;\nstart_ = 'w' $ ;\n",
@@ -130,6 +131,7 @@ INPUTS = {
     "cut": ["x y", "x z", "x", "xy", "X Y", "x\ty"],
     "two": ["ab", "12"],
     "bad": ["x"],
+    "bad2": ["x"],
     "typed_d": ["ab", "1"],
     "us": ["x", "y", "z", "w"],
     "typed_s": ["1", "a"],
@@ -1035,7 +1037,7 @@ def calibration_descriptors(seed: int):
     dozen of grammars (plus those whose rule names differ only in underscores) the one-shot parse, the generated
     source, and the generated parser started at each of its rules."""
     names = sorted(g for g in GRAMMARS if g not in ("bad", "manypat"))
-    rot = [names[(seed * 7 + i * 5) % len(names)] for i in range(10)] + ["us", "kw_c", "typed_c"]
+    rot = [names[(seed * 7 + i * 5) % len(names)] for i in range(10)] + ["us", "kw_c", "typed_c", "bad2"]
     out = []
     for g in dict.fromkeys(rot):
         text = GOOD_INPUT.get(g, INPUTS[g][0])
@@ -1248,7 +1250,7 @@ def gen_call(rng, handles, models_only=False, allow_fault=True, focus=None):
     return op
 
 
-GOOD_INPUT = {"nc_a": "end_ifx", "nc_b": "end_ifx", "nc_c": "a-bc", "nc_d": "x$y", "us": "x", "typed_s": "1", "typed_n": "1 a", "typed_e": "b", "wide": "undo", "wide_b": "add 1", "clo_n": "1", "opt_n": "let a = 1", "bt": "1-2", "bt_b": "a-b", "cmt_a": "1 (* c *) 2", "cmt_b": "1 {c} 2", "cmt_c": "1 2", "clo": "1", "clo_b": "1", "opt": "-1!", "join": "1", "nlist": "1,2", "inh": "x y", "nomemo": "x", "kwparams": "1", "kwparams_b": "1", "eol": "a\nb", "choice_b": "0x1f", "lrec_b": "a+b", "typed_tok": "begin 42", "kw_c": "IF", "manypat": "x71y", "cn_a": "7", "cn_b": "x", "cn_c": "x", "cn_d": "7 ab", "nums": "1", "nums_b": "1", "tok_a": "end if", "tok_b": "end  if", "pat_a": "12 34", "pat_b": "12  34", "ref": "12 ab", "choice": "a", "typed": "1", "typed_b": "1", "typed_c": "1 a", "typed_d": "ab", "params": "1", "kw": "x", "kw_b": "x",
+GOOD_INPUT = {"bad2": "x", "nc_a": "end_ifx", "nc_b": "end_ifx", "nc_c": "a-bc", "nc_d": "x$y", "us": "x", "typed_s": "1", "typed_n": "1 a", "typed_e": "b", "wide": "undo", "wide_b": "add 1", "clo_n": "1", "opt_n": "let a = 1", "bt": "1-2", "bt_b": "a-b", "cmt_a": "1 (* c *) 2", "cmt_b": "1 {c} 2", "cmt_c": "1 2", "clo": "1", "clo_b": "1", "opt": "-1!", "join": "1", "nlist": "1,2", "inh": "x y", "nomemo": "x", "kwparams": "1", "kwparams_b": "1", "eol": "a\nb", "choice_b": "0x1f", "lrec_b": "a+b", "typed_tok": "begin 42", "kw_c": "IF", "manypat": "x71y", "cn_a": "7", "cn_b": "x", "cn_c": "x", "cn_d": "7 ab", "nums": "1", "nums_b": "1", "tok_a": "end if", "tok_b": "end  if", "pat_a": "12 34", "pat_b": "12  34", "ref": "12 ab", "choice": "a", "typed": "1", "typed_b": "1", "typed_c": "1 a", "typed_d": "ab", "params": "1", "kw": "x", "kw_b": "x",
               "icase": "x", "ws": "ab cd", "const": "a", "named": "1", "over": "(1)", "lrec": "1", "cut": "x y", "two": "ab"}
 
 
